@@ -128,3 +128,36 @@ func VerifC13VarBlock() {
 	rt.Assert(strings.TrimSuffix(stdout, "\n") == "same", "$v in an expression is not equal to the value stored: "+s)
 	rt.Reach("expression")
 }
+
+// VerifC13Reassign: a variable that already holds one scalar is assigned another one of the same
+// type (values that compare equal although they are written differently are the interesting
+// pairs: 0 and -0, 1 and 1.0 ...): reading it back gives the second value, as text and as value.
+func VerifC13Reassign() {
+	near := []float64{0, math.Copysign(0, -1), 1, -1, 0.5, 1e21, math.SmallestNonzeroFloat64, -math.SmallestNonzeroFloat64}
+	dt := []string{types.Number, types.Float}[rt.Choice("as-float", 2)]
+	a := near[rt.Choice("first", len(near))]
+	b := near[rt.Choice("second", len(near))]
+	sa, _ := types.ConvertGoType(a, types.String)
+	sb, _ := types.ConvertGoType(b, types.String)
+	rt.Note("values: " + sa.(string) + " then " + sb.(string))
+
+	// through the API
+	mx.Init()
+	p := lang.NewTestProcess()
+	rt.Assert(p.Variables.Set(p, "v", a, dt) == nil, "cannot set the variable")
+	rt.Assert(p.Variables.Set(p, "v", b, dt) == nil, "cannot set the variable again")
+	s, err := p.Variables.GetString("v")
+	rt.Assert(err == nil, "cannot read the variable back")
+	rt.Assert(s == sb.(string), "after a second assignment the variable reads as text other than the value assigned last")
+	v, err := p.Variables.GetValue("v")
+	rt.Assert(err == nil, "cannot read the variable's value back")
+	fv, isF := v.(float64)
+	rt.Assert(isF && math.Float64bits(fv) == math.Float64bits(b), "after a second assignment the variable holds a value other than the one assigned last")
+	rt.Reach("reassigned-api")
+
+	// through murex code
+	stdout, stderr, exit, err := mx.Run("set " + dt + " v=" + sa.(string) + "; set " + dt + " v=" + sb.(string) + "; out $v")
+	rt.Assert(err == nil && exit == 0, "set/set/out failed: "+stderr)
+	rt.Assert(strings.TrimSuffix(stdout, "\n") == sb.(string), "`out $v` after a second `set` does not print the value assigned last: "+stdout)
+	rt.Reach("reassigned-block")
+}
